@@ -171,7 +171,28 @@ func PropC15(c *vs.Case, f Factory, kind string) error {
 				return HookResponse{Code: 503, Body: []byte("unavailable")}
 			})
 		}
+		// discovery momentarily does not know one of the related resources (its CRD was re-installed, the last
+		// refresh failed for that API group): the objects exist all the same, so the hook must not be shown a
+		// related map that silently lacks them - the sync fails and is retried, or the map is complete
+		gapRes := ""
+		if !invalid && !failCustomize && c.Prob(1, 6) {
+			for _, r := range rules {
+				res := fmt.Sprint(r["resource"])
+				if res != scn.Cfg.ParentResource && scn.Cfg.ChildCfgOf(res) == nil {
+					gapRes = res
+				}
+			}
+			if gapRes != "" {
+				env.W.Sim.SetHidden(gapRes, true)
+				env.W.Resources.VerifRefresh()
+				c.Class("related-resource-missing-from-discovery")
+			}
+		}
 		t := env.Sync()
+		if gapRes != "" {
+			env.W.Sim.SetHidden(gapRes, false)
+			env.W.Resources.VerifRefresh()
+		}
 		if failCustomize {
 			scn.Prog.Install(env.W, scn.Cfg.Kind)
 		}
@@ -211,6 +232,14 @@ func PropC15(c *vs.Case, f Factory, kind string) error {
 			if len(syncCalls) > 0 {
 				return withTrace(vs.Violf("C15/hook-called-despite-invalid-rule", "%s, yet the sync hook was called", why), t)
 			}
+			continue
+		}
+		if t.Err != nil && gapRes != "" {
+			if len(syncCalls) > 0 {
+				return withTrace(vs.Violf("C15/hook-called-despite-unresolvable-rule", "discovery does not list %s, the sync failed (%v), yet the sync hook was called", gapRes, t.Err), t)
+			}
+			log = append(log, "related resource "+gapRes+" missing from discovery: sync failed, to be retried")
+			nontrivial = true
 			continue
 		}
 		if t.Err != nil {
